@@ -153,6 +153,23 @@ pub fn run(ctx: &Ctx) -> PropReport {
             |(items, p)| json!({"items": items.iter().map(|x| x.to_json()).collect::<Vec<_>>(), "printer": p, "text": items.iter().map(print_item).collect::<Vec<_>>().join(" ")}),
         ));
     }
+    // deep combs: nesting up to 300 levels with atoms at every level
+    let mut deep = SubReport::new("deep-nesting-roundtrip");
+    for depth in [20usize, 63, 64, 65, 100, 128, 129, 200, 300] {
+        let mut t = ItemSpec::List(vec![ItemSpec::Int(7), ItemSpec::name("leaf")]);
+        for k in 0..depth {
+            t = ItemSpec::List(vec![ItemSpec::Int(k as i32), t, ItemSpec::Bool(k % 2 == 0)]);
+        }
+        for p in 0..3u8 {
+            deep.evaluations += 1;
+            match judge(&vec![t.clone()], p) {
+                Ok(o) => deep.record_only(&o),
+                Err(f) => deep.fail(ctx, f, json!({"items": [t.to_json()], "printer": p, "text": format!("comb of depth {}", depth)})),
+            }
+        }
+    }
+    deep.sample(json!({"text": "( 2 ( 1 ( 0 ( 7 leaf ) TRUE ) FALSE ) TRUE ) ... up to 300 levels"}));
+    rep.push(deep);
     // generator output
     let n = ctx.tier.pick(3_000u64, 100_000u64);
     let mut g = par_map(ctx, "random-code-generator", n, |i, rep| {
